@@ -229,13 +229,20 @@ def run(tier: str, seed: int, t0: float) -> int:
                 nm, args, thunk = og.pick(tr)
                 ops.run_op(thunk)
             if tr.steps:
-                rebase.undo_shape(b2, tr, rng)
+                try:
+                    rebase.undo_shape(b2, tr, rng)
+                except Exception:  # noqa: BLE001 - the construction itself failed in the library: nothing to record
+                    stats.count("construction_raised")
             # two concurrent histories against the same base
             tr_r = Transform(rd)
             for _ in range(rng.randint(1, 3)):
                 nm, args, thunk = og.pick(tr_r)
                 ops.run_op(thunk)
-            info = rebase.rebase(b2, rd, list(tr.steps), list(tr_r.steps), rng)
+            try:
+                info = rebase.rebase(b2, rd, list(tr.steps), list(tr_r.steps), rng)
+            except Exception:  # noqa: BLE001 - e.g. a rebased step with positions the document does not have
+                info = None
+                stats.count("construction_raised")
             if info:
                 stats.count("rebased_steps", info["rebased"])
         jobs.append(("Trace_Doc", b2, f"T mappings[{name}]"))
